@@ -596,3 +596,65 @@ func c12r6(rc *core.RC) {
 		rc.Unknown("decoder/sliceDecoder-destination-uses", token.NoPos, "found %d uses of the destination header's data field in sliceDecoder methods", n)
 	}
 }
+
+// ---- C12.R7 the decoder's context buffer is never recycled ----
+
+// Strings, json.Numbers and keys decoded in buffer mode are views of ctx.Buf (zero copy), and the
+// context goes back to the pool with that buffer still attached. Unlike the encoder's context
+// buffer it must therefore never be reused as scratch: no `x.Buf[:n]` of a decoder RuntimeContext
+// may be the base of an append or the destination of a copy.
+func c12r7(rc *core.RC) {
+	p := rc.P
+	n, sites := 0, 0
+	isDecBuf := func(info *types.Info, e ast.Expr) bool {
+		f := core.FieldOf(info, e)
+		if f == nil || f.Name() != "Buf" || f.Pkg() == nil || f.Pkg().Path() != core.PkgPaths["decoder"] {
+			return false
+		}
+		sel := core.Unparen(e).(*ast.SelectorExpr)
+		tv := info.Types[sel.X]
+		return tv.Type != nil && strings.HasSuffix(strings.TrimPrefix(tv.Type.String(), "*"), "decoder.RuntimeContext")
+	}
+	for _, short := range []string{"decoder", "json"} {
+		for _, fd := range p.Funcs(short) {
+			if fd.Body == nil {
+				continue
+			}
+			info := p.Info(fd)
+			fn := p.FuncName(fd)
+			k := 0
+			ast.Inspect(fd.Body, func(m ast.Node) bool {
+				switch x := m.(type) {
+				case *ast.SelectorExpr:
+					if isDecBuf(info, x) {
+						sites++
+					}
+				case *ast.CallExpr:
+					isAppend, isCopy := core.IsBuiltin(info, x, "append"), core.IsBuiltin(info, x, "copy")
+					if (!isAppend && !isCopy) || len(x.Args) == 0 {
+						return true
+					}
+					base := core.Unparen(x.Args[0])
+					if sl, ok := base.(*ast.SliceExpr); ok {
+						base = core.Unparen(sl.X)
+					}
+					if !isDecBuf(info, base) {
+						return true
+					}
+					n++
+					k++
+					rc.Touch(fn)
+					rc.Bad(fmt.Sprintf("%s/context-buffer-recycled#%d", fn, k), x.Pos(), "`%s` writes into the buffer a pooled decoder context brought along: results of earlier Unmarshal calls (strings, json.Numbers, map keys) are views of that buffer and change under their owners", core.Clip(core.Src(p.Fset, x), 80))
+				}
+				return true
+			})
+		}
+	}
+	if sites < 10 {
+		rc.Unknown("decoder/context-buffer-uses", token.NoPos, "found %d uses of the decoder context's Buf", sites)
+		return
+	}
+	if n == 0 {
+		rc.OK("decoder/context-buffer-never-recycled", token.NoPos, "%d uses of the decoder context's Buf examined: none is the base of an append or the destination of a copy", sites)
+	}
+}
